@@ -21,44 +21,44 @@ ASSUMPTIONS = ["bounds as listed in evidence.coverage.bounds", "equal multisets 
 
 def bounds(tier):
     q = tier == "quick"
-    return {"partition": f"values 0..5, 1..{5 if q else 6} items, 1..4 bins; all partitioners, cg with 4 configs x 3 objectives, dp/ilp with 3 objectives (ilp: 1..4 items, values 0..3)",
-            "packing": f"all sequences of 1..{4 if q else 5} items over 0..6 (B=6) for ff/bf/ffd/bfd/bc; multisets of 1..{6 if q else 7} items over 1..10 (B=20) for bc/ffd/bfd",
+    return {"partition": f"values 0..5, 1..{5 if q else 7} items, 1..4 bins; all partitioners, cg with 4 configs x 3 objectives, dp/ilp with 3 objectives (ilp: 1..4 items, values 0..3)",
+            "packing": f"all sequences of 1..{4 if q else 6} items over 0..6 (B=6) for ff/bf/ffd/bfd/bc; multisets of 1..{6 if q else 8} items over 1..10 (B=20) for bc/ffd/bfd",
             "big": "partition values {0,1,2**24+1,2**31+1,2**32+3,2**40+5} 1..4(5) items k=2..3; packing B=2**32 sequences of 1..3(4) over {1,2**31-1,2**31,2**31+1,2**32-1,2**32}; covering B=2**32 with letters next to B/3, B/2",
             "halves": "multiples of 1/2: partition multisets of 1..4(5) items over (0.5,1,1.5,2.5,3) k=2..3; packing sequences of 1..3(4) over (0.5,..,4.5) B=5; covering multisets of 1..4(5), B=5",
             "long": "9..15(24) items over {1,2}, 9..12(16) over {1,2,3}, 9..11(13) over {0,1,5},{2,3,7}, non-sorted: simple partitioners + cg (k=2,3,n+1), 5 packers and 3 covers with B=2*max+1",
-            "covering": f"multisets of 1..{5 if q else 6} items over 1..13 (B=10) and 1..9 (B=6)"}
+            "covering": f"multisets of 1..{5 if q else 7} items over 1..13 (B=10) and 1..9 (B=6)"}
 
 
 def tasks(tier):
     q = tier == "quick"
     ts = []
-    for ch in scopes.chunk_multisets(range(0, 6), 1, 5 if q else 6, 25):
+    for ch in scopes.chunk_multisets(range(0, 6), 1, 5 if q else 7, 25):
         ts.append(("partition", ch, (1, 2, 3, 4)))
     for ch in scopes.chunk_multisets(range(0, 4), 1, 4, 12):
         ts.append(("partition-ilp", ch, (1, 2, 3)))
-    for ch in spaces.chunked(spaces.sequences(range(0, 7), 1, 4 if q else 5), 400):
+    for ch in spaces.chunked(spaces.sequences(range(0, 7), 1, 4 if q else 6), 400):
         ts.append(("packing-seq", ch, 6))
-    for ch in scopes.chunk_multisets(range(1, 11), 1, 6 if q else 7, 300):
+    for ch in scopes.chunk_multisets(range(1, 11), 1, 6 if q else 8, 300):
         ts.append(("packing-ms", ch, 20))
-    for B, N in ((10, 5 if q else 6), (6, 5 if q else 6)):
+    for B, N in ((10, 5 if q else 7), (6, 5 if q else 7)):
         for ch in scopes.chunk_multisets(range(1, B + 4), 1, N, 400):
             ts.append(("covering", ch, B))
     # large magnitudes (a format-dependent number type - int32 array, float32 sums - would show here) and many items
-    for ch in scopes.chunk_multisets(scopes.BIG_VALUES, 1, 4 if q else 5, 25):
+    for ch in scopes.chunk_multisets(scopes.BIG_VALUES, 1, 4 if q else 6, 25):
         ts.append(("partition", ch, (2, 3)))
     BL = (1, 2 ** 31 - 1, 2 ** 31, 2 ** 31 + 1, 2 ** 32 - 1, 2 ** 32)
-    for ch in spaces.chunked(spaces.sequences(BL, 1, 3 if q else 4), 200):
+    for ch in spaces.chunked(spaces.sequences(BL, 1, 3 if q else 5), 200):
         ts.append(("packing-seq", ch, 2 ** 32))
-    for ch in scopes.chunk_multisets((1, 2, 2 ** 32 // 3, 2 ** 32 // 3 + 1, 2 ** 31 - 1, 2 ** 31, 2 ** 31 + 1, 2 ** 32), 1, 4 if q else 5, 200):
+    for ch in scopes.chunk_multisets((1, 2, 2 ** 32 // 3, 2 ** 32 // 3 + 1, 2 ** 31 - 1, 2 ** 31, 2 ** 31 + 1, 2 ** 32), 1, 4 if q else 6, 200):
         ts.append(("covering", ch, 2 ** 32))
     for ch in spaces.chunked(scopes.long_thin_multisets(tier), 40):
         ts.append(("long", ch, None))
     # values that are not integers (multiples of 1/2, exact in every format): a presentation must not round them
-    for ch in scopes.chunk_multisets((0.5, 1, 1.5, 2.5, 3), 1, 4 if q else 5, 25):
+    for ch in scopes.chunk_multisets((0.5, 1, 1.5, 2.5, 3), 1, 4 if q else 6, 25):
         ts.append(("partition", ch, (2, 3)))
-    for ch in spaces.chunked(spaces.sequences((0.5, 1.5, 2.5, 3, 3.5, 4.5), 1, 3 if q else 4), 100):
+    for ch in spaces.chunked(spaces.sequences((0.5, 1.5, 2.5, 3, 3.5, 4.5), 1, 3 if q else 5), 100):
         ts.append(("packing-seq", ch, 5))
-    for ch in scopes.chunk_multisets((0.5, 1.5, 2.5, 3, 3.5, 4.5), 1, 4 if q else 5, 100):
+    for ch in scopes.chunk_multisets((0.5, 1.5, 2.5, 3, 3.5, 4.5), 1, 4 if q else 6, 100):
         ts.append(("covering", ch, 5))
     return ts
 
